@@ -9,9 +9,11 @@ package props
 
 import (
 	"fmt"
+	"sort"
 	"strings"
 	"testing"
 
+	"github.com/Comcast/rulio/core"
 	"pgregory.net/rapid"
 
 	"verif/harness/gen"
@@ -228,8 +230,26 @@ func runC01(c c01Case) *vlib.Outcome {
 				// a heterogeneous array in the event is a documented
 				// refusal of the pattern index
 				if o.Kind == "DISPATCH_ERROR" && isUnsortableRefusal(o.Violation) {
+					refusal := o.Violation
 					o.Violation, o.Kind = "", ""
 					o.Label("event-refused-unsortable")
+					// ... on the strength of the rules that are there,
+					// not of those that were: a location that holds
+					// the same items and never held anything else
+					// must refuse the event, too
+					if x.K == "event" {
+						// the event's location and its ancestors
+						var chain []string
+						for j := 0; j <= c.Parents; j++ {
+							if len(chain) > 0 || c01Locs[j] == loc {
+								chain = append(chain, c01Locs[j])
+							}
+						}
+						if msg := c01Historyless(w, kind, chain, x.Doc); msg != "" {
+							o.Fail("REFUSAL_DEPENDS_ON_HISTORY", "%s: the event was refused (%s), but %s", when, refusal, msg)
+							return o
+						}
+					}
 					continue
 				}
 				return o
@@ -237,6 +257,52 @@ func runC01(c c01Case) *vlib.Outcome {
 		}
 	}
 	return o
+}
+
+// c01Historyless builds the locations of w anew from what they hold now
+// (nothing that was removed or replaced has ever been there) and sends the
+// event to the first location of the chain.  It returns "" if that location
+// refuses the event as unsortable, too, or if no verdict is possible.
+func c01Historyless(w *world, kind string, chain []string, event M) string {
+	for _, ln := range chain {
+		if ml := w.model[ln]; ml == nil || len(ml.Unspec) > 0 {
+			return ""
+		}
+	}
+	o2 := &vlib.Outcome{}
+	w2 := newWorld(kind, nil, o2)
+	if w.hooks != nil {
+		w2.withCronHooks()
+	}
+	for _, ln := range chain {
+		if _, err := w2.open(ln); err != nil {
+			return ""
+		}
+	}
+	for i := 0; i+1 < len(chain); i++ {
+		if err := w2.setParents(chain[i], []string{chain[i+1]}); err != nil {
+			return ""
+		}
+	}
+	for i := len(chain) - 1; i >= 0; i-- {
+		ln := chain[i]
+		ids := make([]string, 0, len(w.model[ln].Items))
+		for id := range w.model[ln].Items {
+			ids = append(ids, id)
+		}
+		sort.Strings(ids)
+		for _, id := range ids {
+			it := w.model[ln].Items[id]
+			if _, err := w2.locs[ln].AddFact(newCtx(), id, core.Map(gen.CopyMap(it.Stored))); err != nil {
+				return "" // (cannot rebuild: no verdict)
+			}
+		}
+	}
+	_, cond := w2.locs[chain[0]].ProcessEvent(newCtx(), core.Map(gen.CopyMap(event)))
+	if cond != nil && isUnsortableRefusal(cond.Msg) {
+		return ""
+	}
+	return fmt.Sprintf("a location that holds the same items and has no history processes it (condition %v)", cond)
 }
 
 func TestC01(t *testing.T) {
